@@ -365,6 +365,8 @@ class Executor:
         elif (o.sort, attr) in self.registry.attrs:
             yield from self.registry.attrs[(o.sort, attr)](self, o, p, site)
         elif o.sort in ('int', 'str', 'bool'): yield p, Exc('AttributeError', site)
+        elif o.sort == 'opaque':
+            yield p, Val('opaque', x=src)      # reading an attribute of an unmodelled object claims nothing: the value stays opaque
         else:
             q = p.inexact(); yield q, Val('opaque', x=src)
 
@@ -1041,6 +1043,10 @@ class Executor:
             yield p, Exc('TypeError', site)
         elif it.sort.startswith('opt:'):
             for q, v in self.narrow(it, p): yield from self.iterable(v, q, site)
+        elif it.sort == 'opaque':          # unknown iterable: arbitrary length, opaque elements (may also fail to iterate)
+            q = p.fork() if getattr(self.c, 'exact_opaque_iteration', False) else p.inexact()
+            n = z3.FreshConst(z3.IntSort(), 'n_iter'); q.pc.append(n >= 0)
+            yield q, Seq(lambda i, nm=str(it.x): Val('opaque', x=f'{nm}[i]'), n)
         elif it.sort in self.registry.iterables:
             yield from self.registry.iterables[it.sort](self, it, p, site)
         else:
